@@ -84,7 +84,21 @@ MANIFEST = dict(
          'sequences of writer lines (lines_ok over the generated templates: exactly one cur_indent at the start of each '
          'line, a literal LF at its end, no LF in between) the text written at cur_indent c is the text written at the empty '
          'cur_indent with c put in front of every LF-terminated line (ser_node_is_shift_of_unindented, '
-         'serialise_start_indent_shifts_writer_lines): the indent can never land inside a quoted string.',
+         'serialise_start_indent_shifts_writer_lines): the indent can never land inside a quoted string. '
+         'Round 5: histories of calls. _serialise is read a second time over the state that outlives a call (gen_hprog, '
+         'KV/KvWHist.v: writes, which can raise; the child loop; guard / mark / unmark / any other use of a module-level or '
+         'class-level mutable object that some function of the module changes); writer_outcome_independent_of_leftover_state '
+         'and writer_history_independent: a program without state instructions gives back what it found and, after ANY '
+         'history of earlier calls (completed, or aborted by the file raising at any write), runs exactly as in a fresh '
+         'process; writer_marks_left_behind_refuted: cycle detection through a module-level set that is un-marked after the '
+         'children but not in a finally clause (seeded fault c01_7) -- one aborted call and the same valid tree can never '
+         'be written again. Obligations: hprog_stateless gen_hprog, an empty census of state sites in serialise / '
+         '_serialise / export / escape_text / _escape_matcher, and same_skeleton gen_hprog gen_wprog. Oracle: aborted call '
+         '(file raising at the k-th write, once or 130 times; a value that is not a string, repaired; a cycle, taken out '
+         'again; an export() generator dropped after a few lines) or an edit through the public API, then the same tree is '
+         'written again and compared with a freshly built equal tree (also for blocks below it). The deprecated export() '
+         'is now also an instruction program gen_xprog (KV/KvXProg.v): export_program_leaves_tree_unchanged and '
+         'export_program_yields_model_text (the program yields the text of the export model exp_node).',
     note='Trusted: Coq kernel + vm_compute, translate/c01_kvser.py (incl. re._parser for the character set of the '
          'escape patterns; checked per character against escape_text), translate/c01_kvloop.py (the symbolic reading of '
          'the loop body: alias tracking of four variables, classification of error messages by prefix) and '
@@ -99,10 +113,18 @@ MANIFEST = dict(
          'theorem (sampled correspondence + witnesses). escape_text(multiline=True) (no KV1 writer uses it), trees with '
          'a nameless node below the root (the format cannot carry them: they are flattened into the parent), non-str '
          'values (escape_text raises), cyclic trees and the Cython tokenizer twin are outside the model. '
-         '"Serialisation never changes the tree" for the deprecated export() is still the syntactic census plus the '
-         'identity walk of the search; for serialise()/_serialise it is the theorem about gen_wprog (the store '
+         '"Serialisation never changes the tree" is, for serialise()/_serialise and (round 5) for the deprecated export(), a '
+         'theorem about the instruction programs gen_wprog / gen_xprog (the store '
          'instruction is any statement that assigns to / deletes an attribute or item of a tree object or calls a '
-         'mutating method on one; method calls taken as pure must be one-line pure predicates of the class).',
+         'mutating method on one; method calls taken as pure must be one-line pure predicates of the class); the '
+         'syntactic census and the identity walk are kept. History independence: trusted are the classification of '
+         'module-level / class-level objects as mutable (by the value the imported module holds) and as "changed by some '
+         'function of the module" (mutating method call, item / attribute store, global declaration: syntactic), and the '
+         'reading of statements as guard / mark / unmark / state in translate/c01_kvser.py state_kind; the model of an '
+         'aborted call is "the k-th write raises and nothing after it runs" (try/finally in a writer: fail closed). State '
+         'reached only through functions of other modules that the writers call (beyond escape_text / _escape_matcher), '
+         'decorators (export() is @deprecated: the warnings registry) and C-level caches are outside the census; the '
+         'history oracle covers them by sampling.',
 )
 
 # ------------------------------------------------------------------------------------------------ calls into the implementation
@@ -152,7 +174,7 @@ IMPORTS = ['Coq.Lists.List', 'Coq.NArith.NArith', 'Coq.Bool.Bool', 'SV.KV.KvBase
 IMPORTS_LOOP = ['Coq.Lists.List', 'Coq.NArith.NArith', 'Coq.Bool.Bool', 'SV.KV.KvBase', 'SV.KV.KvLex', 'SV.KV.KvParse',
                 'SV.KV.KvLoop', 'SV.KV.KvLoopRef', 'SV.KV.KvLoopEquiv', 'SV.KV.KvLoopRoundtrip', 'SV.KV.KvEnum', 'SV.KV.KvLoopEnum',
                 'SV.Gen.KVSer_gen', 'SV.Gen.KVLoop_gen']
-IMPORTS_AUX = ['SV.KV.KvWriter', 'SV.KV.KvFlagProg', 'SV.KV.KvWProg', 'SV.KV.KvShift', 'SV.Gen.KVAux_gen']
+IMPORTS_AUX = ['SV.KV.KvWriter', 'SV.KV.KvFlagProg', 'SV.KV.KvWProg', 'SV.KV.KvWHist', 'SV.KV.KvXProg', 'SV.KV.KvShift', 'SV.Gen.KVAux_gen']
 IMPORTS_REFINE = ['Coq.Lists.List', 'Coq.NArith.NArith', 'Coq.Bool.Bool', 'SV.Text.Str', 'SV.Text.Prog', 'SV.Text.Tokenizer',
                   'SV.Text.TokGen', 'SV.KV.KvBase', 'SV.KV.KvLex', 'SV.KV.KvParse', 'SV.KV.KvRefine', 'SV.Gen.KVSer_gen']
 PRE = '''Import ListNotations. Open Scope N_scope.
@@ -1215,6 +1237,180 @@ def roundtrip_fails(doc, opts, writer: str = 'serialise'):
     return where_differs(doc, got)
 
 
+# ------------------------------------------------------------------------------------------------ histories of writer calls
+# The property is about every call, not about the first call of a fresh process: a writer that keeps anything between
+# calls (module-level or class-level state, marks on the nodes) can answer differently after an earlier call was aborted
+# half-way and the caller carried on.  A history here = <a call that does not complete> then <the same tree is written
+# again>; the second call must give the text a freshly built equal tree gives.
+class FailingFile:
+    """A file object whose k-th write raises OSError (the earlier ones succeed)."""
+    def __init__(self, k: int) -> None:
+        self.k, self.n = k, 0
+
+    def write(self, s) -> int:
+        self.n += 1
+        if self.n >= self.k:
+            raise OSError(28, 'No space left on device (injected by the check)')
+        return len(s)
+
+
+class CountingFile:
+    def __init__(self) -> None:
+        self.n = 0
+
+    def write(self, s) -> int:
+        self.n += 1
+        return len(s)
+
+
+HISTORY_KINDS = ['failed-write', 'nonstr-value', 'cycle-repaired', 'abandoned-export', 'edited-between-calls']
+DISTURBED = 'control-call-before-the-abort-differs'
+HISTORY_ROTA = ['failed-write', 'nonstr-value', 'edited-between-calls', 'abandoned-export']
+
+
+def preorder(kv) -> list:
+    out = [kv]
+    if isinstance(kv._value, list):
+        for c in kv._value:
+            out += preorder(c)
+    return out
+
+
+def history_fails(doc, opts: dict, kind: str, k: int) -> str:
+    """_history_fails; an exception of the implementation that none of its steps expects is a description class too (never a
+    crash of the check)."""
+    try:
+        return _history_fails(doc, opts, kind, k)
+    except ImplTimeout:
+        return 'hang'
+    except Exception as e:      # noqa: BLE001
+        return f'unexpected-exception:{type(e).__name__}'
+
+
+def _history_fails(doc, opts: dict, kind: str, k: int) -> str:
+    """'' if, after the aborted call of `kind` (k selects the write / leaf / block / number of lines), writing the tree again
+    gives the text of a freshly built equal tree (for the tree itself and for every block below it) and the tree is unchanged;
+    else a description class."""
+    want, err = write_text(build_root(doc), opts)
+    if want is None:
+        return ''       # the plain call fails: reported by the round-trip oracle
+    with warnings.catch_warnings():
+        warnings.simplefilter('ignore')
+        root = build_root(doc)
+        nodes = preorder(root)
+        pre, err = write_text(root, opts)
+        if pre != want:      # (state left behind by an earlier history of this process: the key says so)
+            return DISTURBED
+        try:
+            if kind == 'failed-write':
+                cf = CountingFile()
+                try:
+                    guarded(root.serialise, cf, **opts)
+                except Exception as e:      # noqa: BLE001   (write_text above succeeded on an equal tree)
+                    return f'call-with-a-file-raised:{type(e).__name__}'
+                if cf.n == 0:
+                    return ''
+                # once, twice or three times; one history in 16 repeats the aborted call 130 times (what leaks a little per
+                # aborted call -- a counter, a stack -- shows only when it has accumulated)
+                for rep in range(130 if k % 16 == 0 else 1 + k % 3):
+                    try:
+                        guarded(root.serialise, FailingFile(1 + (k + rep) % cf.n), **opts)
+                        return 'error-of-the-file-swallowed'
+                    except OSError:
+                        pass
+                    except ImplTimeout:
+                        raise
+                    except Exception as e:      # noqa: BLE001
+                        if rep == 0:
+                            break       # the file's error comes out as something else: not this property's business
+                        # an earlier aborted call makes this one fail before it reaches the failing write
+                        return f'second-call-raised:{type(e).__name__}'
+            elif kind == 'nonstr-value':
+                leaves = [x for x in nodes if not isinstance(x._value, list)]
+                if not leaves:
+                    return ''
+                leaf = leaves[k % len(leaves)]
+                orig = leaf.value
+                leaf.value = 12345 if k % 2 else None
+                try:
+                    guarded(root.serialise, **opts)
+                except ImplTimeout:
+                    raise
+                except Exception:       # noqa: BLE001   (a value that is not a string is outside the property: anything goes)
+                    pass
+                leaf.value = orig
+            elif kind == 'cycle-repaired':
+                blocks = [x for x in nodes[1:] if isinstance(x._value, list)]
+                if not blocks:
+                    return ''
+                blk = blocks[k % len(blocks)]
+                blk._value.append(blk)
+                try:
+                    guarded(root.serialise, **opts)
+                except ImplTimeout:
+                    raise
+                except Exception:       # noqa: BLE001   (RecursionError today: cyclic trees are outside the property)
+                    pass
+                finally:
+                    blk._value.pop()
+            elif kind == 'edited-between-calls':
+                # not an aborted call: a completed one (the control call above), then the caller edits the tree through the
+                # public API, then writes it again -- the second text must be that of the edited tree (a writer that
+                # remembers text per node would give the old one)
+                if len(nodes) < 2:
+                    return ''
+                x = nodes[1 + k % (len(nodes) - 1)]
+                if isinstance(x._value, list):
+                    x.name = (x.real_name or '') + 'Q"q'
+                else:
+                    x.value = x.value + '\\"e\t'
+                    if k % 3 == 0:
+                        x.name = 'N' + (x.real_name or '')
+                doc = snapshot(root)[2]
+                want, err = write_text(build_root(doc), opts)
+                if want is None:
+                    return ''
+            elif kind == 'abandoned-export':
+                want_x, _ = write_text(build_root(doc), {}, 'export')
+                pre_x, _ = write_text(root, {}, 'export')
+                if want_x is None or pre_x != want_x:
+                    return DISTURBED        # (export() of a fresh tree is examined by the export round trip, earlier)
+                gen = root.export()
+                try:
+                    for _ in range(k % 7):
+                        if guarded(next, gen, None) is None:
+                            break
+                except ImplTimeout:
+                    raise
+                except Exception as e:      # noqa: BLE001   (the complete export() just before did not raise)
+                    return f'export-raised:{type(e).__name__}'
+                del gen
+            else:
+                return ''
+        except ImplTimeout:
+            return 'aborted-call-hang'
+    got, err = write_text(root, opts)
+    if got is None:
+        return f'second-call-raised:{err}'
+    if got != want:
+        return 'second-call-text-differs'
+    if kind == 'abandoned-export':
+        want_x, _ = write_text(build_root(doc), {}, 'export')
+        got_x, err = write_text(root, {}, 'export')
+        if want_x is not None and got_x != want_x:
+            return f'second-export-raised:{err}' if got_x is None else 'second-export-text-differs'
+    blocks = [x for x in nodes[1:] if isinstance(x._value, list)]
+    for x in blocks[:2] + blocks[2:][-1:]:       # the first two blocks (in file order) and the last one
+        if True:
+            sub_want, _ = write_text(build(snapshot(x)), opts)
+            sub_got, err = write_text(x, opts)
+            if sub_want is not None and sub_got != sub_want:
+                return f'sub-block-raised:{err}' if sub_got is None else 'sub-block-text-differs'
+    if snapshot(root)[2] != doc:
+        return 'tree-changed'
+    return ''
+
+
 def shrink_doc(doc, pred):
     """Greedy structural shrinking of a failing document."""
     def variants(d):
@@ -1307,6 +1503,7 @@ def search(ck: Ck) -> None:
     found: dict[str, tuple] = {}
     shrinks: dict[str, int] = {}
     shrunk_docs: set = set()
+    hist_jobs: list = []
 
     def may_shrink(kind: str, doc) -> bool:
         """Shrinking is the expensive part: per writer path, a dozen failures are shrunk, later ones only when all
@@ -1472,10 +1669,50 @@ def search(ck: Ck) -> None:
                 cls = roundtrip_fails(small, {}, 'export')
                 report(fail_key('export-roundtrip', small, cls), f'parse("".join(t.export())) != t ({cls})', small, {},
                        {'writer': 'export'})
-            if identity_walk(root) != before:
-                report('export-mutates-tree', 'the tree differs after export()', doc, {})
+            write_text(root, {}, 'export')       # (round 5: on THIS tree; the round trip above builds its own)
+            if identity_walk(root) != before or snapshot(root)[2] != doc:
+                report('export-mutates-tree', 'the tree differs after export()', doc, {}, {'writer': 'export'})
+            hist_jobs.append((i, doc, opts))
         if special and nodes >= 1:
             ck.seen(('search', repr(doc)))
+    # histories: a call that is aborted half-way (the file raises at the k-th write, a value that is not a string and is
+    # repaired afterwards, a cycle that is taken out again, an export() generator dropped after a few lines), then the same
+    # tree is written again: every kind for the directed documents, one kind per generated tree.  They run after everything
+    # else: a writer that keeps state across calls would otherwise disturb the oracles above (in a way no replay, which
+    # starts a fresh process, could reproduce).
+    performed: list = []
+    with warnings.catch_warnings():
+        warnings.simplefilter('ignore')
+        for i, doc, opts in hist_jobs:
+            UNVERIFIED[0] = False
+            if HANGS[0] >= MAX_HANGS:
+                break
+            # (a cycle costs a RecursionError a thousand frames deep, 14 ms: one generated tree in 32 gets it)
+            for kind in (HISTORY_KINDS if i < len(SEARCH_CORPUS) else
+                         [HISTORY_ROTA[i % len(HISTORY_ROTA)]] + (['cycle-repaired'] if i % 32 == 5 else [])):
+                hk = ck.rng.randrange(1 << 16)
+                ck.count('search_histories')
+                ck.hist('search_history_kind', kind)
+                d = history_fails(doc, opts, kind, hk)
+                performed.append((doc, opts, kind, hk))
+                if d == DISTURBED:
+                    # what earlier histories of this process left behind hits a fresh tree (e.g. through a re-used id(), or a
+                    # leak per aborted call that has accumulated).  When a single history was already reported it is the
+                    # cause; otherwise the sequence of histories itself is the failing input (the last 3000 of them: a replay file of 2-3 MB)
+                    ck.count('search_histories_disturbed_by_earlier_ones')
+                    if not any(k_.startswith('history:') for k_ in found):
+                        seq = [[dd, oo, kk, hh] for dd, oo, kk, hh in performed[-3000:]]
+                        report('history:accumulated:control-call-differs',
+                               f'after {len(performed) - 1} histories of aborted calls on other trees a freshly built tree is no '
+                               'longer written like an equal tree at the start of the process', doc, opts,
+                               {'history_sequence': seq})
+                    continue
+                if d and may_shrink('history:' + kind, doc):
+                    # (shrinking keeps the class: with state left behind in this process anything else is unreliable)
+                    small = shrink_doc(doc, lambda dd, kind=kind, hk=hk, opts=opts, d=d: history_fails(dd, opts, kind, hk) == d)
+                    cls = d
+                    report(f'history:{kind}:{cls}', f'after an aborted call ({kind}) the tree is no longer written as a fresh '
+                           f'equal tree is ({cls})', small, opts, {'history': kind, 'k': hk})
     ck.sample({'search_tree': SEARCH_CORPUS[6], 'serialised_default': impl_serialise(SEARCH_CORPUS[6], OPTS_WS[0])})
     for key, (what, doc, opts, extra) in found.items():
         ck.violation(key, what, {'doc': doc, 'opts': opts, 'extra': extra,
@@ -1555,7 +1792,10 @@ def run(ck: Ck) -> None:
                'character, at random positions, with empty chunks, after every backslash/quote/newline; non-trivial = at '
                'least two chunks. token strings: ALL strings up to length 4 (thorough 5) over {STR a, STR b, STR with a '
                'line break, NEWLINE, {, }, enabled flag, disabled flag, EQUALS} x 16 option vectors x {EOF, tokenizer '
-               'error}: counted as evaluations, not as distinct non-trivial cases.')
+               'error}: counted as evaluations, not as distinct non-trivial cases. histories: per searched tree one of '
+               '{file raising at the k-th write (1-3 times, one in 16: 130 times), non-str value then repaired, edit '
+               'through the public API, export() generator dropped after k lines} (+ a repaired cycle for one tree in 32; '
+               'all kinds for the directed documents), then the same tree written again; run after all other oracles.')
     ck.trusted.append('hand-written model KV/KvParse.v (token loop of Keyvalues.parse with its options), tied on every run by '
                       'the exhaustive token-level correspondence and the sampled text-level correspondences')
     ck.trusted.append('Text/Tokenizer.v (reader-program model of Tokenizer, owned and tied by C03); KV/KvLex.v is proved equal '
@@ -1565,6 +1805,10 @@ def run(ck: Ck) -> None:
                       'return value) and translate/c01_kvaux.py (symbolic reading of _read_flag, the statement list of _serialise); '
                       'the meaning of the generated objects is in KV/KvWriter.v, KV/KvFlagProg.v (compared with _read_flag on every '
                       'run), KV/KvWProg.v')
+    ck.trusted.append('translate/c01_kvser.py init_state / state_refs / state_kind (which module-level and class-level objects are '
+                      'mutable state -- by runtime value and "changed by some function of the module" --, statements read as guard / '
+                      'mark / unmark / state) and the meaning of the history program in KV/KvWHist.v hstep (an exception = the '
+                      'k-th write raises, nothing after it runs); export() as a program: KV/KvXProg.v xstep')
     ck.assumptions += [
         'trees are finite, acyclic, values are str, only the root is nameless (Keyvalues.root / parse result)',
         'names contain no CR/LF unless parse is called with newline_keys=True; values contain none when '
@@ -1610,7 +1854,7 @@ def run(ck: Ck) -> None:
         th2 = None
         if ok_esc:
             th2 = threading.Thread(target=lambda: inst2.update(rec2.instance_obligations(
-                IMPORTS_REFINE + ['SV.KV.KvSym', 'SV.KV.KvLoop', 'SV.KV.KvLoopRoundtrip', 'SV.Gen.KVLoop_gen'] + IMPORTS_AUX, {
+                IMPORTS_REFINE + ['SV.KV.KvSym', 'SV.KV.KvExport', 'SV.KV.KvLoop', 'SV.KV.KvLoopRoundtrip', 'SV.Gen.KVLoop_gen'] + IMPORTS_AUX, {
             'tokenizer_model_escape_table_equals_kv_lexer_table': 'esc_tables_match gen_tables gen_escfg',
             'tokenizer_model_BARE_DISALLOWED_equals_kv_lexer_set': 'bare_tables_match gen_tables',
             'tokenizer_model_operators_are_brace_open_close_equals_comma': 'ops_match (Str.operators gen_tables)',
@@ -1619,6 +1863,11 @@ def run(ck: Ck) -> None:
                 'cfg_ok gen_sercfg && esc_ok gen_escfg && pcfg_ok gen_parsecfg && loop_ok gen_ptree gen_pfinal gen_parsecfg && '
                 'tables_match gen_tables gen_escfg && delivery_ok gen_serpaths && flagprog_ok gen_flagprog && '
                 'wprog_pure gen_wprog && wprog_text_ok gen_sercfg gen_wprog',
+            'all_thirteen_hypotheses_of_c01_property_all_calls_hold_of_the_regenerated_objects':
+                'cfg_ok gen_sercfg && esc_ok gen_escfg && pcfg_ok gen_parsecfg && loop_ok gen_ptree gen_pfinal gen_parsecfg && '
+                'tables_match gen_tables gen_escfg && delivery_ok gen_serpaths && flagprog_ok gen_flagprog && '
+                'wprog_pure gen_wprog && wprog_text_ok gen_sercfg gen_wprog && hprog_stateless gen_hprog && '
+                'xcfg_ok gen_expcfg && xprog_pure gen_xprog && xprog_text_ok gen_expcfg gen_xprog',
           }, name='inst_refine')))
             th2.start()
         inst = ck.instance_obligations(IMPORTS + [i for i in IMPORTS_LOOP if i not in IMPORTS] + IMPORTS_AUX, {
@@ -1667,6 +1916,15 @@ def run(ck: Ck) -> None:
             # _serialise as an instruction program (gen_wprog)
             'writer_program_has_no_store_or_mutating_instruction': 'wprog_pure gen_wprog',
             'writer_program_writes_are_the_templates_of_the_writer_model': 'wprog_text_ok gen_sercfg gen_wprog',
+            # state that outlives a call (round 5): _serialise as a program over it (gen_hprog, KV/KvWHist.v), and the census of
+            # serialise / _serialise / export / escape_text / _escape_matcher
+            'writer_program_has_no_instruction_touching_state_that_outlives_the_call(premise of writer_history_independent)':
+                'hprog_stateless gen_hprog',
+            'writers_read_and_write_no_module_or_class_level_mutable_object': 'Nat.eqb (length gen_writer_state_sites) 0',
+            'history_program_and_writer_program_have_the_same_writes_and_child_loops': 'same_skeleton gen_hprog gen_wprog',
+            # the deprecated export() as an instruction program (gen_xprog, KV/KvXProg.v)
+            'export_program_has_no_store_or_mutating_instruction': 'xprog_pure gen_xprog',
+            'export_program_yields_are_those_of_the_export_model': 'xprog_text_ok gen_expcfg gen_xprog',
             'no_store_to_tree_in_writers': 'Nat.eqb (length gen_tree_stores) 0',
             'no_mutating_call_on_tree_in_writers': 'Nat.eqb (length gen_tree_mut_calls) 0',
             # the token loop of parse as a regenerated decision tree (Gen/KVLoop_gen.v) against the reference tree
@@ -1748,22 +2006,30 @@ def run(ck: Ck) -> None:
                     'instance:child_indent', 'instance:root_child_indent', 'instance:cfg_ok_and_esc_ok',
                     'instance:escape_table', 'instance:every_escape_written', 'instance:escape_fast_path',
                     'instance:root_test_of_serialise', 'instance:serialise_hands_the_writes', 'instance:serialise_has_a_path',
-                    'instance:delivery_ok', 'instance:all_nine_hypotheses', 'instance:writer_program_writes_are',
+                    'instance:delivery_ok', 'instance:all_nine_hypotheses', 'instance:all_thirteen_hypotheses', 'instance:writer_program_writes_are',
                     'instance:cur_indent_is_written_exactly',
                     'instance:parse_newline_key_test', 'instance:parse_newline_value_test',
                     'instance:parse_loop_', 'instance:parse_checks_after', 'instance:parse_emptiness', 'instance:loop_ok'):
             ck.explain(pre)
     if any(k.startswith('export-roundtrip') for k in keys):
-        for pre in ('instance:export_', 'instance:root_test_of_export', 'instance:xcfg_ok'):
+        for pre in ('instance:export_', 'instance:root_test_of_export', 'instance:xcfg_ok', 'instance:all_thirteen_hypotheses'):
             ck.explain(pre)
     if 'serialise-to-file-differs' in keys:
         for pre in ('instance:serialise_hands_the_writes', 'instance:serialise_has_a_path', 'instance:delivery_ok',
-                    'instance:all_nine_hypotheses'):
+                    'instance:all_nine_hypotheses', 'instance:all_thirteen_hypotheses'):
             ck.explain(pre)
+    if any(k.startswith('history:') for k in keys):
+        # an aborted call that changes what a later call does explains the state obligations
+        ck.explain('instance:writer_program_has_no_instruction_touching_state')
+        ck.explain('instance:writers_read_and_write_no_module_or_class_level')
+        ck.explain('instance:all_thirteen_hypotheses')
     if 'serialise-mutates-tree' in keys or 'export-mutates-tree' in keys:
         ck.explain('instance:no_store_to_tree')
         ck.explain('instance:no_mutating_call')
         ck.explain('instance:writer_program_has_no_store')
+        ck.explain('instance:export_program_has_no_store')
+        ck.explain('instance:export_program_yields_are')
+        ck.explain('instance:all_thirteen_hypotheses')
         ck.explain('instance:writer_program_writes_are')
         ck.explain('instance:all_nine_hypotheses')
 
@@ -1779,6 +2045,23 @@ def replay(data: dict) -> int:
     doc = [tup(t) for t in r['doc']]
     opts = r.get('opts') or {}
     extra = r.get('extra') or {}
+    if extra.get('history_sequence'):
+        seq = extra['history_sequence']
+        print('history   :', f'{len(seq)} histories of aborted calls, one after the other, in this (fresh) process')
+        d = ''
+        for dd, oo, kk, hh in seq:
+            d = history_fails([tup(t) for t in dd], oo, kk, int(hh))
+        print('last one  :', d or 'the tree is written like a freshly built equal tree')
+        print('round trip:', 'DIFFERS' if d else 'OK')
+        return 0
+    if extra.get('history'):
+        print('tree      :', doc)
+        print('options   :', opts)
+        print('history   :', f'an aborted call of kind {extra["history"]!r} (selector {extra.get("k", 0)}), then the same tree is written again')
+        d = history_fails(doc, opts, extra['history'], int(extra.get('k', 0)))
+        print('second call:', d or 'same text as a freshly built equal tree')
+        print('round trip:', 'DIFFERS' if d else 'OK')
+        return 0
     text, werr = write_text(build(doc[0]) if extra.get('named') else build_root(doc), opts,
                             'export' if extra.get('writer') == 'export' else 'serialise')
     print('tree      :', doc)
